@@ -263,7 +263,7 @@ ssize_t
 flenp_buffer_to_sink_n(const LengthPrefixKind k,
                        Sink *sink, ByteBuffer *b, size_t n)
 {
-    const size_t rest = byte_buffer_avail(b);
+    const size_t rest = byte_buffer_rest(b);
     if (n > rest) {
         return -EINVAL;
     }
